@@ -611,12 +611,19 @@ def mgda_has_tie(J, epsilon, max_iters, rel=1e-9):
         e = np.zeros(m)
         e[t] = 1.0
         a, b, c = alpha @ (G @ e), alpha @ ga, e @ (G @ e)
+        sc = max(abs(a), abs(b), abs(c), 1e-300)
+        # the branch conditions c <= a, b <= a are discrete decisions too
+        if abs(c - a) <= rel * sc or abs(b - a) <= rel * sc:
+            return True
         if c <= a:
             gamma = 1.0
         elif b <= a:
             gamma = 0.0
         else:
             gamma = (b - a) / (b + c - 2 * a)
+        # ... and so is the stopping test gamma < epsilon
+        if abs(gamma - float(epsilon)) <= rel * max(gamma, float(epsilon), 1e-300):
+            return True
         alpha = (1 - gamma) * alpha + gamma * e
         if gamma < float(epsilon):
             break
